@@ -220,7 +220,9 @@ func (g *FnGen) applyContract(s *State, fc *FuncContract, ct *callTarget, args [
 		if p.ghost != "" {
 			ghosts[p.ghost] = true
 		} else {
-			g.cellSorts(p.typ, heapSorts)
+			if !p.newobj {
+				g.cellSorts(p.typ, heapSorts)
+			}
 		}
 	}
 	var hl []string
